@@ -6,6 +6,7 @@ package checks
 import (
 	"encoding/json"
 	"fmt"
+	"time"
 
 	"verif/harness"
 )
@@ -29,7 +30,25 @@ func fileRunner(fn func(p *harness.Program) Result) RunFunc {
 		if err := json.Unmarshal(raw, &p); err != nil {
 			return Result{}, fmt.Errorf("bad program: %v", err)
 		}
-		return fn(&p), nil
+		return Guard(func() Result { return fn(&p) }), nil
+	}
+}
+
+// HangTimeout bounds the execution of a single case. Sequential cases finish
+// in milliseconds; the bound is generous so that machine load cannot trip it.
+var HangTimeout = 120 * time.Second
+
+// Guard runs a case under a watchdog: a case that does not return is reported
+// as a "hang" violation (the stuck goroutine is abandoned).
+func Guard(fn func() Result) Result {
+	done := make(chan Result, 1)
+	go func() { done <- fn() }()
+	select {
+	case r := <-done:
+		return r
+	case <-time.After(HangTimeout):
+		return Result{V: &harness.Violation{Clause: "hang", Item: -1,
+			Msg: fmt.Sprintf("case did not finish within %v (deadlock or blocked operation)", HangTimeout)}}
 	}
 }
 
